@@ -110,3 +110,78 @@ Definition req_compare (r : parsed_req) (ver : str) : bool :=
 
 (* cargo_parse(req)(ver) *)
 Definition req_matches (req ver : str) : bool := req_compare (cargo_parse req) ver.
+
+(* ------------------------------------------------------------------ *)
+(* the callers: CargoLock._versions (manifest.py:735-740: per package name the lock
+   entries sorted by SemVer, newest first) and Interpreter._resolve_package
+   (interpreter.py:520-530: the first — i.e. most recent — entry the requirement
+   accepts); Dependency.accepts_version is cargo_parse(self.version) *)
+Definition resolve_package (req : str) (versions : list str) : option str :=
+  let p := cargo_parse req in
+  find (fun v => req_compare p v) (sort_desc versions).
+
+(* ------------------------------------------------------------------ *)
+(* version.py:14-23 _api_of and 49-66 api (used for the names of the generated
+   subprojects/dependencies: manifest.py:244,317,709, interpreter.py:536,857) *)
+Inductive pyint := IntOk (n : N) | IntValueError | IntOutOfModel.
+(* int(s): ASCII digit strings are modelled; strings Python's int() might still accept
+   through blanks, a sign, '_' or non-ASCII digits are out of model; everything else
+   raises ValueError *)
+Definition int_lenient (c : char) : bool :=
+  is_digit c || is_space c || (c =? 43) || (c =? 45) || (c =? 95) || (127 <? c).
+Definition py_int (s : str) : pyint :=
+  if is_digits s then IntOk (digits_val s)
+  else if match s with [] => false | _ => forallb int_lenient s end then IntOutOfModel
+  else IntValueError.
+
+Inductive apires := ApiOk (s : str) | ApiValueError | ApiMesonErr | ApiOutOfModel.
+
+Definition api_fields (vers : list str) : apires :=
+  match vers with
+  | [] => ApiOk []                                     (* not reachable: split never returns [] *)
+  | v0 :: rest =>
+      let second :=
+        match rest with
+        | [] => ApiOk (s2l "0")
+        | v1 :: _ =>
+            match py_int v1 with
+            | IntOk n => if n =? 0 then ApiOk (s2l "0") else ApiOk (s2l "0." ++ v1)
+            | IntValueError => ApiValueError
+            | IntOutOfModel => ApiOutOfModel
+            end
+        end in
+      match v0 with
+      | [] => ApiOk v0                                 (* `not vers[0]` *)
+      | _ =>
+          match py_int v0 with
+          | IntOk n => if n =? 0 then second else ApiOk v0
+          | IntValueError => ApiValueError
+          | IntOutOfModel => ApiOutOfModel
+          end
+      end
+  end.
+
+Definition api_of (version : str) : apires := api_fields (split_on c_dot version).
+
+Definition is_lower_bound_op (o : rop) : bool :=
+  match o with RGe | REq | RCaret | RTilde => true | _ => false end.
+
+(* the set `apis`, as a duplicate-free list; the first error wins (the loop raises) *)
+Fixpoint api_collect (parts : list (rop * str)) (acc : list str) : apires + list str :=
+  match parts with
+  | [] => inr acc
+  | (o, ver) :: r =>
+      if is_lower_bound_op o then
+        match api_of ver with
+        | ApiOk a => api_collect r (if str_mem a acc then acc else acc ++ [a])
+        | e => inl e
+        end
+      else api_collect r acc
+  end.
+Definition api (cargo_ver : str) : apires :=
+  match api_collect (req_split cargo_ver) [] with
+  | inl e => e
+  | inr [] => ApiOk []
+  | inr [a] => ApiOk a
+  | inr _ => ApiMesonErr
+  end.
